@@ -3,6 +3,7 @@
 #![allow(non_camel_case_types, dead_code, unused_variables, unused_mut, clippy::all)]
 
 mod generated;
+mod incrate;
 
 use serde_json::{Value, json};
 use std::io::Write;
@@ -170,6 +171,7 @@ fn main() {
         run_case(c.as_ref(), &mut rng, samples, &mut lines);
     }
     array_cases(&mut rng, &mut lines);
+    incrate::run(&mut rng, &mut lines);
     for l in lines {
         writeln!(out, "{l}").unwrap();
     }
